@@ -2,6 +2,7 @@ use crate::{rng::Rng, Emit};
 pub mod c02;
 pub mod c03;
 pub mod c05;
+pub mod c07;
 pub mod c09;
 pub mod c11;
 pub mod c12;
@@ -17,6 +18,7 @@ pub fn eval(op: &str, args: &[&str]) -> Option<String> {
         "c02" => c02::eval(op, args),
         "c03" | "c04" | "c10" => c03::eval(op, args),
         "c05" => c05::eval(op, args),
+        "c07" => c07::eval(op, args),
         "c09" => c09::eval(op, args),
         "c11" => c11::eval(op, args),
         "c12" | "c13" | "c14" => c12::eval(op, args),
@@ -31,6 +33,7 @@ pub fn generate(prop: &str, thorough: bool, rng: &mut Rng, em: &mut Emit) {
         "C02" => c02::generate(thorough, rng, em),
         "C03" | "C04" | "C10" => c03::generate(prop, thorough, rng, em),
         "C05" => c05::generate(thorough, rng, em),
+        "C07" => c07::generate(thorough, rng, em),
         "C09" => c09::generate(thorough, rng, em),
         "C11" => c11::generate(thorough, rng, em),
         "C12" | "C13" | "C14" => c12::generate(prop, thorough, rng, em),
